@@ -47,7 +47,15 @@ static void ev_eval(const char* op, uint64_t key, const std::vector<uint64_t>& i
     o << "],\"al\":[],\"key\":" << h2(key) << ",\"keya\":" << h2(key) << ",\"par\":[1,1],\"para\":[1,1],\"out\":" << h2(out) << ",\"rng\":1";
     logev(o.str());
 }
-struct Shared { TFheGateBootstrappingParameterSet* p; TFheGateBootstrappingSecretKeySet* sk; LweSample* in; int nin; uint64_t keyh; std::vector<uint64_t> inh; };
+struct Ws { LagrangeHalfCPolynomial* la; LagrangeHalfCPolynomial* lb; LagrangeHalfCPolynomial* lr; };
+struct Shared { TFheGateBootstrappingParameterSet* p; TFheGateBootstrappingSecretKeySet* sk; LweSample* in; int nin; uint64_t keyh; std::vector<uint64_t> inh; std::vector<Ws> ws; };
+// a Lagrange-domain product in workspaces that ANOTHER thread allocated (a coordinator pre-allocating buffers): the transforms still run on the calling thread's processor
+static uint64_t lagr_product(const Ws& w, unsigned seed) {
+    VhRng r(seed); IntPolynomial* a = new_IntPolynomial(1024); TorusPolynomial* b = new_TorusPolynomial(1024); TorusPolynomial* c = new_TorusPolynomial(1024);
+    for (int i = 0; i < 1024; i++) { a->coefs[i] = (int)r.below(128) - 64; b->coefsT[i] = (Torus32)r.u32(); }
+    IntPolynomial_ifft(w.la, a); TorusPolynomial_ifft(w.lb, b); LagrangeHalfCPolynomialMul(w.lr, w.la, w.lb); TorusPolynomial_fft(c, w.lr);
+    uint64_t h = hPoly(c); delete_IntPolynomial(a); delete_TorusPolynomial(b); delete_TorusPolynomial(c); return h;
+}
 static void yield_some(VhRng& r) { int k = r.below(4); for (int i = 0; i < k; i++) sched_yield(); }
 // different things a thread may have done before (or between) the evaluations under test
 static void history(int kind, VhRng& r, const Shared& S) {
@@ -66,7 +74,8 @@ static void history(int kind, VhRng& r, const Shared& S) {
 static void evaluations(const Shared& S, VhRng& r, int count, const char* hist) {
     int n = S.p->in_out_params->n; LweSample* out = new_gate_bootstrapping_ciphertext(S.p); const TFheGateBootstrappingCloudKeySet* bk = &S.sk->cloud;
     for (int q = 0; q < count; q++) {
-        int a = r.below(S.nin), b = r.below(S.nin), c = r.below(S.nin), g = r.below(11) % 6;      // (the coefficient-domain bootstrapping is slower: half as often)
+        int a = r.below(S.nin), b = r.below(S.nin), c = r.below(S.nin), g = r.below(13) % 7;      // (the coefficient-domain bootstrapping is slower: half as often)
+        if (g == 6) { unsigned ps = 7000 + r.below(4); uint64_t h = lagr_product(S.ws[(size_t)t_tid % S.ws.size()], ps); ev_eval("lagrange_product", S.keyh, {(uint64_t)ps}, h, hist); continue; }
         yield_some(r);
         if (g == 0) { bootsNAND(out, S.in + a, S.in + b, bk); ev_eval("NAND", S.keyh, {S.inh[a], S.inh[b]}, hLwe(out, n), hist); }
         else if (g == 1) { bootsXOR(out, S.in + a, S.in + b, bk); ev_eval("XOR", S.keyh, {S.inh[a], S.inh[b]}, hLwe(out, n), hist); }
@@ -109,6 +118,11 @@ int main(int argc, char** argv) {
     n = S.p->in_out_params->n;
     for (int i = 0; i < S.nin; i++) { bootsSymEncrypt(S.in + i, r.below(2), S.sk); S.inh.push_back(hLwe(S.in + i, n)); }
     S.keyh = 0x600dULL + seed;
+    // inputs 0 and 1 re-randomised (same phases) so that the body of NAND's combination (1/8 - a.b - b.b) is exactly 0: the rounded body barb is 0
+    { const int32_t* key = S.sk->lwe_key->key; int i = 0; while (i < n && !key[i]) i++;
+      if (i < n) { uint32_t tgt[2] = {0u, (uint32_t)modSwitchToTorus32(1, 8)}; for (int q = 0; q < 2; q++) { LweSample* X = S.in + q; uint32_t d = tgt[q] - (uint32_t)X->b; X->a[i] = (Torus32)((uint32_t)X->a[i] + d); X->b = (Torus32)((uint32_t)X->b + d); S.inh[q] = hLwe(X, n); } } }
+    for (int q = 0; q < 64; q++) { Ws w; w.la = new_LagrangeHalfCPolynomial(1024); w.lb = new_LagrangeHalfCPolynomial(1024); w.lr = new_LagrangeHalfCPolynomial(1024); S.ws.push_back(w); }
+    for (unsigned ps = 7000; ps < 7004; ps++) ev_eval("lagrange_product", S.keyh, {(uint64_t)ps}, lagr_product(S.ws[0], ps), "ref");
     // sequential single-thread reference: every (gate, inputs) combination the workers may use
     { const TFheGateBootstrappingCloudKeySet* bk = &S.sk->cloud; LweSample* out = new_gate_bootstrapping_ciphertext(S.p);
       for (int a = 0; a < S.nin; a++) { tfhe_bootstrap_FFT(out, bk->bkFFT, modSwitchToTorus32(1, 4), S.in + a); ev_eval("bootstrap_FFT/4", S.keyh, {S.inh[a]}, hLwe(out, n), "ref");
